@@ -72,6 +72,91 @@ func propC12(a *Analysis, r *Registry) {
 	X.BenignWriteTags["stats.KDE.Bandwidth"] = true // the idempotent lazy fill; every reader goes through prepare()
 	X.NoInline["stats.(*KDE).PDF$1"] = true
 	X.NoInline["stats.(*KDE).CDF$1"] = true
+	// bisect (the root finder behind Bounds): decision list before the loop, the bracket
+	// recurrences, and the two ways out of the loop — |f(mid)| <= tolerance gives (mid, true);
+	// otherwise a bracket that cannot shrink (mid equal to an end) gives (mid, false)
+	if fn := b.Fn(rB, "stats.bisect"); fn != nil {
+		name := "stats.bisect"
+		b.guard(rB, name, func() {
+			fc := X.FCFor(fn)
+			env := X.EnvFor(fn, "f", "low0", "high0", "tol")
+			band := func(v string) string { return "(-tol<=" + v + " && " + v + "<=tol)" }
+			// before the loop
+			c1 := env.MustParse(band("f(low0)"))
+			c2 := env.MustParse(band("f(high0)"))
+			fcA := X.Under(fn, X.AssumeCond(c1, true))
+			b.EqUnder(rB, name+"/root-at-low", b.pos(fn), fcA, fcA.RetVal(0), env, "low0")
+			b.EqRF(rB, name+"/root-at-low/ok", b.pos(fn), fcA.Sub(fcA.RetVal(1)), S.True(), "reports a root")
+			fcB := X.Under(fn, X.AssumeCond(c1, false), X.AssumeCond(c2, true))
+			b.EqUnder(rB, name+"/root-at-high", b.pos(fn), fcB, fcB.RetVal(0), env, "high0")
+			b.EqRF(rB, name+"/root-at-high/ok", b.pos(fn), fcB.Sub(fcB.RetVal(1)), S.True(), "reports a root")
+			loops := fc.Ctx.Loops()
+			if len(loops) != 1 {
+				r.Fail(rB, name+"/loop", b.pos(fn), "expected one bisection loop")
+				return
+			}
+			hdr := loops[0].Header
+			type out struct{ cond, val *RF }
+			byOK := map[bool]*out{}
+			for _, ee := range fc.ExitEdges(hdr) {
+				v := fc.gatedReturns(ee.To, 0, nil)
+				if v == nil {
+					r.Undecided(rB, name+"/exits", b.pos(fn), "the value returned after leaving the loop is not computable")
+					return
+				}
+				if S.isBottom(v) {
+					continue
+				}
+				v = fc.resolveAlongEdge(ee.From, ee.To, v)
+				v = fc.resolveExitPhis(loops[0], ee.To, v)
+				at := v.SingleAtom()
+				if at == nil || at.Name != "tuple" || len(at.Args) != 2 || !(at.Args[1].Equal(S.True()) || at.Args[1].Equal(S.False())) {
+					r.Fail(rB, name+"/exits", b.pos(fn), "the loop is left with a result that is not (x, true) or (x, false): "+clip(v.String(), 200))
+					return
+				}
+				ok := at.Args[1].Equal(S.True())
+				if o := byOK[ok]; o == nil {
+					byOK[ok] = &out{ee.Cond, at.Args[0]}
+				} else {
+					if !o.val.Equal(at.Args[0]) {
+						r.Fail(rB, name+"/exits", b.pos(fn), "two ways out with the same verdict return different points")
+						return
+					}
+					o.cond = S.Or(o.cond, ee.Cond)
+				}
+			}
+			if byOK[true] == nil || byOK[false] == nil {
+				r.Fail(rB, name+"/exits", b.pos(fn), "the loop needs a converged exit (x, true) and a stuck-bracket exit (x, false)")
+				return
+			}
+			mid := "((high+low)/2)"
+			same := "mathx.Sign(f(" + mid + "))==mathx.Sign(flow)"
+			var vars map[string]*RF
+			b.AnyOf(func() {
+				vars = b.LoopSystem(rB, name+"/recurrences", b.pos(fn), fc, byOK[true].val, env, []recSpec{
+					{"low", "low0", "ite(" + same + ", " + mid + ", low)"},
+					{"high", "high0", "ite(" + same + ", high, " + mid + ")"},
+					{"flow", "f(low0)", "ite(" + same + ", f(" + mid + "), flow)"},
+				})
+			}, func() {
+				same0 := "mathx.Sign(f(" + mid + "))==mathx.Sign(f(low0))"
+				vars = b.LoopSystem(rB, name+"/recurrences", b.pos(fn), fc, byOK[true].val, env, []recSpec{
+					{"low", "low0", "ite(" + same0 + ", " + mid + ", low)"},
+					{"high", "high0", "ite(" + same0 + ", high, " + mid + ")"},
+				})
+			})
+			if vars == nil {
+				return
+			}
+			for k, v := range vars {
+				env.Set(k, v, nil)
+			}
+			b.Eq(rB, name+"/converged/point", b.pos(fn), byOK[true].val, env, mid)
+			b.Eq(rB, name+"/converged/when", b.pos(fn), byOK[true].cond, env, band("f("+mid+")"))
+			b.Eq(rB, name+"/stuck/point", b.pos(fn), byOK[false].val, env, mid)
+			b.Eq(rB, name+"/stuck/when", b.pos(fn), byOK[false].cond, env, "!"+band("f("+mid+")")+" && ("+mid+"==high || "+mid+"==low)")
+		})
+	}
 	for _, n := range []string{"stats.(*KDE).PDF", "stats.(*KDE).CDF", "stats.(*KDE).Bounds"} {
 		if fn := b.Fn("A-1 no-mutation", n); fn != nil {
 			a.CheckNoMutation(r, "A-1 no-mutation", fn, nil)
